@@ -132,25 +132,25 @@ Definition run_b (inplace : bool) (k : bkind) (sp0 : space) (other : elem) (x t 
     match k with
     | BAdd | BRAdd => w_iadd flg bdtf icast sp0 x other
     | BSub | BRSub => w_isub flg bdtf icast sp0 x other
-    | BMul | BRMul => w_imul sp0 x other
-    | BDiv | BRDiv => w_itruediv sp0 x other
+    | BMul | BRMul => w_imul flg bdtf icast sp0 x other
+    | BDiv | BRDiv => w_itruediv flg bdtf icast sp0 x other
     end
   else
     match k with
     | BAdd | BRAdd => w_add flg bdtf icast sp0 x other t
     | BSub => w_sub flg bdtf icast sp0 x other t
     | BRSub => w_rsub flg bdtf icast sp0 x other t
-    | BMul | BRMul => w_mul sp0 x other t
-    | BDiv => w_truediv sp0 x other t
-    | BRDiv => w_rtruediv sp0 x other t
+    | BMul | BRMul => w_mul flg bdtf icast sp0 x other t
+    | BDiv => w_truediv flg bdtf icast sp0 x other t
+    | BRDiv => w_rtruediv flg bdtf icast sp0 x other t
     end.
 
 Definition run_wop (sp : space) (o : wop T) : store T -> outcome T :=
   match o with
   | WLincomb1 a x1 out => w_lincomb1 flg bdtf icast sp a x1 out
   | WLincomb2 a x1 b x2 out => w_lincomb2 flg bdtf icast sp a x1 b x2 out
-  | WMultiply x1 x2 out => ps_multiply sp x1 x2 out
-  | WDivide x1 x2 out => ps_divide sp x1 x2 out
+  | WMultiply x1 x2 out => w_multiply sp x1 x2 out
+  | WDivide x1 x2 out => w_divide sp x1 x2 out
   | WAssign self other => w_assign flg bdtf icast sp self other
   | WCopy self tmp => w_copy flg bdtf icast sp self tmp
   | WSetZero self => w_set_zero flg bdtf icast sp self
@@ -166,13 +166,13 @@ Definition run_wop (sp : space) (o : wop T) : store T -> outcome T :=
   | WRSubS self c tmp => w_rsub_scalar flg bdtf icast sp self c tmp
   | WIMulS self c => w_imul_scalar flg bdtf icast sp self c
   | WMulS self c tmp => w_mul_scalar flg bdtf icast sp self c tmp
-  | WIMul self other => w_imul sp self other
-  | WMul self other tmp => w_mul sp self other tmp
+  | WIMul self other => w_imul flg bdtf icast sp self other
+  | WMul self other tmp => w_mul flg bdtf icast sp self other tmp
   | WITrueDivS self c => w_itruediv_scalar flg bdtf icast sp self c
   | WTrueDivS self c tmp => w_truediv_scalar flg bdtf icast sp self c tmp
-  | WITrueDiv self other => w_itruediv sp self other
-  | WTrueDiv self other tmp => w_truediv sp self other tmp
-  | WRTrueDiv self other tmp => w_rtruediv sp self other tmp
+  | WITrueDiv self other => w_itruediv flg bdtf icast sp self other
+  | WTrueDiv self other tmp => w_truediv flg bdtf icast sp self other tmp
+  | WRTrueDiv self other tmp => w_rtruediv flg bdtf icast sp self other tmp
   | WRTrueDivS self c tmp => w_rtruediv_scalar flg bdtf icast sp self c tmp
   | WNeg self tmp => w_neg flg bdtf icast sp self tmp
   | WPos self tmp => w_pos flg bdtf icast sp self tmp
